@@ -158,7 +158,7 @@ func (ord *Order) ValidateWithContext(ctx context.Context) error {
 	return tax.ValidateStructWithContext(ctx, ord,
 		validation.Field(&ord.Regime),
 		validation.Field(&ord.Addons),
-		validation.Field(&ord.Tags.List),
+		validation.Field(&ord.Tags.List, validation.Each(validation.Required)),
 		validation.Field(&ord.UUID),
 		validation.Field(&ord.Type,
 			validation.Required,
